@@ -294,7 +294,9 @@ def read_back(d):
     for s in d['symbols']:
         if not s['nt'] and s['prec'] != -1:
             prec[s['name']] = (s['prec'], s['assoc'])
-    rules = [dict(lhs=r['vlhs'], rhs=list(r['vrhs'] or []), prec=(r['vprec'] or None), action=r['action']) for r in d['rules'][1:]]
+    sname = {s['id']: s['name'] for s in d['symbols']}
+    rules = [dict(lhs=r['vlhs'], rhs=list(r['vrhs'] or []), prec=(r['vprec'] or None), action=r['action'],
+                  glhs=sname.get(r['lhs']), grhs=[sname.get(x) for x in r['rhs']]) for r in d['rules'][1:]]
     r0 = d['rules'][0]
     start = d['symbols'][r0['rhs'][0]]['name'] if r0['rhs'] else None
     return dict(tokens=toks, nts=nts, prec=prec, rules=rules, start=start, prologue=d['code'], union=d['union'], epilogue=d['epilogue'])
@@ -309,6 +311,9 @@ def compare_denotation(want, got):
         for f in ('lhs', 'rhs', 'prec', 'action'):
             if a[f] != b[f]:
                 diffs.append('rule %d %s: written %r, read %r' % (k + 1, f, a[f], b[f]))
+        # the production the tables are built from (and that the action of rule k is attached to) is the k-th rule written
+        if 'glhs' in b and (a['lhs'], a['rhs']) != (b['glhs'], b['grhs']):
+            diffs.append('production %d of the grammar object is %s -> %s, the %d-th rule written is %s -> %s' % (k + 1, b['glhs'], ' '.join(map(str, b['grhs'])), k + 1, a['lhs'], ' '.join(a['rhs'])))
     if want['start'] != got['start']:
         diffs.append('start symbol: written %r, read %r' % (want['start'], got['start']))
     for n, t in want['tokens'].items():
